@@ -205,17 +205,21 @@ func redactCommand(cmd *orderedmap.OrderedMap[string, any], shouldEagerRedact bo
 	}
 }
 
+var (
+	planSummaryIndexRe = regexp.MustCompile(`IXSCAN\s*\{[^}]+\}`)
+	planSummaryKeyRe   = regexp.MustCompile(`[^\s,:{}]+\s*:`)
+)
+
+// redactFieldNamesFromPlanSummary pseudonymises the index key names of every
+// IXSCAN { ... } block. Each key token is rewritten exactly once, in place, so a
+// pseudonym (or the word IXSCAN) can never be rewritten again by a later key.
 func redactFieldNamesFromPlanSummary(planSummary string) string {
-	if planSummary == "COLLSCAN" {
-		return planSummary
-	}
-	result := planSummary
-	fieldNames := ParsePlanSummary(planSummary)
-	for _, fieldName := range fieldNames {
-		hashed := HashName(fieldName)
-		result = strings.ReplaceAll(result, fieldName, hashed)
-	}
-	return result
+	return planSummaryIndexRe.ReplaceAllStringFunc(planSummary, func(block string) string {
+		return planSummaryKeyRe.ReplaceAllStringFunc(block, func(keyAndColon string) string {
+			name := strings.TrimSpace(strings.TrimSuffix(keyAndColon, ":"))
+			return strings.Replace(keyAndColon, name, HashName(name), 1)
+		})
+	})
 }
 
 func traverseMapPath(path []string, operatorMap *orderedmap.OrderedMap[string, any], isSearchStage bool) (interface{}, bool) {
